@@ -264,8 +264,11 @@ unsafe fn arena_alloc(layout: Layout) -> *mut u8 {
         let r = next_rand();
         let gap = (r & 3) as usize;
         let room = (PAGE - (size % PAGE)) % PAGE;
-        let slots = room / align.max(16);
-        let off = if slots > 0 { ((r >> 8) as usize % (slots + 1)) * align.max(16) } else { 0 };
+        // offsets are multiples of the requested alignment only (at least 8): a
+        // block of an 8-aligned type may start at 8 mod 16, which the allocator
+        // contract allows even though common mallocs never do it
+        let slots = room / align;
+        let off = if slots > 0 { ((r >> 8) as usize % (slots + 1)) * align } else { 0 };
         (gap, off)
     } else {
         (0, 0)
